@@ -1781,6 +1781,12 @@ func (t *Topic) thisUserSub(sess *Session, pkt *ClientComMessage, asUid types.Ui
 			userData.modeWant = modeWant
 		}
 
+		if !userData.modeGiven.IsJoiner() {
+			// User was banned: refuse before anything is saved or the ownership is transferred.
+			sess.queueOut(ErrPermissionDeniedReply(pkt, now))
+			return nil, errors.New("topic access denied; user is banned")
+		}
+
 		// Create a subscription object to notify plugins.
 		sub := types.Subscription{
 			User:  asUid.String(),
